@@ -20,7 +20,7 @@ open DoraModel.Gc.Header
 (`bv_decide`; its LRAT certificate checker is compiled natively: axiom `…bv_decide.ax_…` / `Lean.ofReduceBool`) -/
 local macro "hw_decide" : tactic =>
   `(tactic| ((try simp only [Word, FWDPTR_BIT, METADATA_OFFSET, MARK_BIT_SHIFT, MARK_BIT, REMEMBERED_BIT_SHIFT,
-      REMEMBERED_BIT, LOW32, HIGH32, SENTINEL_BITS, SENTINEL_VALUE, boolWord_eq] at *) <;> bv_decide))
+      REMEMBERED_BIT, LOW32, HIGH32, SENTINEL_BITS, SENTINEL_VALUE, boolWord_eq] at *) <;> bv_decide (timeout := 600)))
 
 /-- `a` and `b` agree on every bit outside `mask` -/
 @[reducible] def SameOutside (mask a b : Word) : Prop := a &&& ~~~mask = b &&& ~~~mask
